@@ -169,3 +169,43 @@ func (p *FakeProxy) ContainsCalls() int {
 	defer p.mu.Unlock()
 	return len(p.Conts)
 }
+
+// SetObj stores an object (on-disk representation) with its logical size.
+func (p *FakeProxy) SetObj(key string, b []byte, logical int64) {
+	p.mu.Lock()
+	p.Objs[key] = b
+	p.Sizes[key] = logical
+	p.mu.Unlock()
+}
+
+func (p *FakeProxy) DelObj(key string) {
+	p.mu.Lock()
+	delete(p.Objs, key)
+	delete(p.Sizes, key)
+	p.mu.Unlock()
+}
+
+func (p *FakeProxy) ClearFaults() {
+	p.mu.Lock()
+	p.Faults = map[string]Fault{}
+	p.mu.Unlock()
+}
+
+// GetCalls returns how many Get calls the backend has received for key.
+func (p *FakeProxy) GetCalls(key string) int {
+	p.mu.Lock()
+	defer p.mu.Unlock()
+	n := 0
+	for _, k := range p.Gets {
+		if k == key {
+			n++
+		}
+	}
+	return n
+}
+
+func (p *FakeProxy) ObjLen(key string) int {
+	p.mu.Lock()
+	defer p.mu.Unlock()
+	return len(p.Objs[key])
+}
